@@ -4,6 +4,7 @@ import json, subprocess
 props=[json.loads(l) for l in open('/verif/properties.jsonl')]
 ids=[p['id'] for p in props]
 claimed = {
+
  "C04": dict(
    technique="contract-based deductive verification: zero-annotation safety sweep (bounds, nil, div0, make size, type assertion, termination variants, allocation bounds) generated from go/ssa by gowp and discharged by z3/cvc5, plus helper preconditions proved at call sites",
    category="proof",
@@ -29,6 +30,12 @@ claimed["C07"]=dict(
    text="For every key, usage and data the six checksum implementations return exactly the RFC-defined value (simplified-profile HMAC with Kc = DK(key, usage|0x99), truncated; RFC 4757 HMAC-MD5 with the Microsoft usage mapping), verification returns true only for that exact value, and checksum type ids select the IANA-assigned family.",
    note="Trusted: HMAC/hash uninterpreted; hash.Hash / hmac.New ghost-content models; DK taken at the level of the etype DeriveKey contract (C08 relates it further); MAC assumption for the negative clauses.",
    design="4/C07")
+claimed["C01"]=dict(
+   technique="contract-based deductive verification: RFC 4120 3.2.3 acceptance conditions as postconditions on the real VerifyAPREQ / APReq.Verify / Ticket.DecryptEncPart / Ticket.Valid chain (callers checked against callee contracts, decryption as an uninterpreted etype function, both clock readings as ghost values); discharged by z3/cvc5 via gowp",
+   category="proof",
+   text="For every AP-REQ, keytab and settings: success implies a keytab entry matching principal (or override)/realm/kvno/etype decrypts the ticket, both clock readings lie inside the skew-extended windows, the invalid flag is clear, address requirements hold, the authenticator decrypts under the ticket session key with the right usage, cname and crealm match, and the identity returned is the ticket's cname/crealm/endtime. Refusals carry an error and each RFC error code appears only when its condition holds. Replay and PAC clauses are decided under C02/C19, not here.",
+   note="Trusted: uninterpreted et_dec_ok/et_dec_pt (trusted_ensures on the six DecryptMessage implementations), trusted frames of the ASN.1 decoder, replay cache, GetPACType and SetADCredentials; time.Now unconstrained.",
+   design="4/C01")
 hooks=subprocess.run("git -C /repo log --format='%H %s' | grep ' verif:' | awk '{print $1}'",shell=True,capture_output=True,text=True).stdout.split()
 m={"version":1,
  "setup_cmd":"./setup.sh",
